@@ -24,3 +24,14 @@ package stdlib_contracts
 //@ func DecodeString
 //@ assumed
 //@ pure
+
+//@ package sync/atomic
+//@ func (*Bool).Load
+//@ assumed
+//@ pure
+//@ func (*Value).Swap
+//@ assumed
+//@ pure
+//@ func (*Value).Store
+//@ assumed
+//@ pure
